@@ -23,7 +23,7 @@ type actorSnap struct {
 	unbond   *big.Int
 	redeleg  int
 	withdraw string
-	grants   map[string]string // "grantee|msgType" -> limit ("unlimited" or integer) for grants where this actor is the granter
+	grants   map[string]string          // "grantee|msgType" -> limit ("unlimited" or integer) for grants where this actor is the granter
 	allow    map[string]map[string]bool // same key -> validators the grant names (allow list), nil if it has none
 }
 
